@@ -339,7 +339,7 @@ func ruleEmit(rule string) func(*Ctx) {
 		// --- AddChild: once per record, with outrec.path, result kept in outrec.polypath
 		rco := c.fn("(clipperBase).recursiveCheckOwners")
 		acs := callsTo(c, rco, "(PolyPathBase).AddChild")
-		c.floor(rule+".tree", len(acs), 2)
+		c.floor(rule+".tree", len(acs), 1) // the two AddChild sites may be merged into one with a chosen parent
 		for i, ac := range acs {
 			bad := ""
 			args := ac.Common().Args
